@@ -93,6 +93,19 @@ Theorem C01_end_block : forall s s' minted burned,
 Proof. exact HG.end_block_gap. Qed.
 Print Assumptions C01_end_block.
 
+(* chains of blocks: transactions, EndBlocker, the epoch hook and block advances in any order. After every step the module
+   account covers the recorded amounts, and as long as no pool is decommissioned it holds exactly as much beyond them as
+   at the start. chain_ready collects, along the run, what each step relies on in the state it starts from (sorted pool
+   store and non-negative amounts for a transaction; the hooks' premises above); a failing hook leaves the state as it was. *)
+Theorem C01_chain : forall steps s, HG.chain_ready s steps ->
+  forall d, gap s d <= gap (fold_left HG.chain_apply steps s) d /\
+            (forallb HG.no_decommission steps = true -> gap (fold_left HG.chain_apply steps s) d = gap s d).
+Proof. exact HG.chain_gap. Qed.
+Print Assumptions C01_chain.
+Theorem C01_chain_solvent : forall steps s, HG.chain_ready s steps -> solvent s -> solvent (fold_left HG.chain_apply steps s).
+Proof. exact HG.chain_solvent. Qed.
+Print Assumptions C01_chain_solvent.
+
 (* non-vacuity: a block in which both the provider distribution (1 %) and the depth rewards (accumulation) run *)
 Definition ex_hook_state : clp_state :=
   mkClp (mkBank [(1, [(0, 5000000000000000000000); (1, 7000000000000000000000)]);
